@@ -151,10 +151,8 @@ func checkC01(w *World) {
 		for _, fn := range w.handlerClosure(h.Fn) {
 			allInstrs(fn, func(in ssa.Instruction) {
 				if c, ok := in.(*ssa.Call); ok {
-					if sc := staticCallee(c); sc != nil {
-						if _, isSel := ef.Selectors[sc]; isSel {
-							called[sc] = true
-						}
+					for _, sel := range selectorsApplied(c, ef) {
+						called[sel] = true
 					}
 				}
 			})
@@ -260,9 +258,13 @@ func checkC01(w *World) {
 		stepFn := h.Fn
 		for _, g := range w.handlerClosure(h.Fn) {
 			allInstrs(g, func(in ssa.Instruction) {
-				if c, ok := in.(*ssa.Call); ok && staticCallee(c) == childSel {
-					selCalls = append(selCalls, c)
-					stepFn = g
+				if c, ok := in.(*ssa.Call); ok {
+					for _, sel := range selectorsApplied(c, ef) {
+						if sel == childSel {
+							selCalls = append(selCalls, c)
+							stepFn = g
+						}
+					}
 				}
 			})
 		}
@@ -313,7 +315,7 @@ func checkC01(w *World) {
 	} else {
 		w.undecided(P, "R01.9", "implicit child axis", 0, "Step handler or child arm not found")
 	}
-	w.floor(P, "R01.9", 6)
+	w.floorSites(P, "R01.9", 6)
 
 	// R01.10 node type tests
 	docRule(P, "R01.10", "T+X G<->S<->K", "the spellings switched on by the node-type test handler equal the NodeType terminals; comment/text/processing-instruction arms keep a node only under a type assertion to node.Comment/node.CharData/node.ProcInst, node() is the identity; the PI-target test compares ProcInst.Target() for equality with the literal.")
@@ -489,23 +491,51 @@ func (w *World) checkNodeTypeTests(P string, f *Facts, r *Roles) {
 		body := ifi.Block().Succs[0]
 		asserted := map[string]bool{}
 		storesResult := false
+		var armBlks []*ssa.BasicBlock
 		for _, b := range h.Fn.Blocks {
-			if !body.Dominates(b) {
-				continue
-			}
-			for _, in := range b.Instrs {
-				if ta, ok := in.(*ssa.TypeAssert); ok {
-					if n, ok := types.Unalias(ta.AssertedType).(*types.Named); ok {
-						asserted[n.Obj().Name()] = true
-					}
-				}
-				if s, ok := in.(*ssa.Store); ok {
-					if fa, ok := s.Addr.(*ssa.FieldAddr); ok && fa.Field == r.CtxResultField {
-						storesResult = true
-					}
-				}
+			if body.Dominates(b) {
+				armBlks = append(armBlks, b)
 			}
 		}
+		// the arm together with the function literals it creates and the helpers it calls (a filter helper taking a
+		// predicate keeps the assertion inside the predicate)
+		// a predicate chosen in the arm and applied after the switch reaches the join as a phi edge from the arm
+		var viaPhi []*ssa.BasicBlock
+		inArm := map[*ssa.BasicBlock]bool{}
+		for _, b := range armBlks {
+			inArm[b] = true
+		}
+		allInstrs(h.Fn, func(in ssa.Instruction) {
+			phi, ok := in.(*ssa.Phi)
+			if !ok {
+				return
+			}
+			for i, e := range phi.Edges {
+				if !inArm[phi.Block().Preds[i]] {
+					continue
+				}
+				switch x := e.(type) {
+				case *ssa.Function:
+					viaPhi = append(viaPhi, x.Blocks...)
+				case *ssa.MakeClosure:
+					if f2, ok := x.Fn.(*ssa.Function); ok {
+						viaPhi = append(viaPhi, f2.Blocks...)
+					}
+				}
+			}
+		})
+		withCallees(append(armBlks, viaPhi...), "exec", h.Fn, func(in ssa.Instruction) {
+			if ta, ok := in.(*ssa.TypeAssert); ok {
+				if n, _ := nodeIface(ta.AssertedType); n != nil {
+					asserted[n.Obj().Name()] = true
+				}
+			}
+			if s, ok := in.(*ssa.Store); ok {
+				if fa, ok := s.Addr.(*ssa.FieldAddr); ok && fa.Field == r.CtxResultField {
+					storesResult = true
+				}
+			}
+		})
 		if iface == "" {
 			ok := len(asserted) == 0 && !storesResult
 			w.check(P, "R01.10", "node type "+t, ifi.Pos(), ok, fmt.Sprintf("node() must keep every node: type assertions in arm %v, stores result in arm: %v", keys(asserted), storesResult))
@@ -527,13 +557,13 @@ func (w *World) checkNodeTypeTests(P string, f *Facts, r *Roles) {
 	}
 	okPI := false
 	detail := "no equality between ProcInst.Target() and the literal's string found"
-	allInstrs(hp.Fn, func(in ssa.Instruction) {
+	withCallees(hp.Fn.Blocks, "exec", hp.Fn, func(in ssa.Instruction) {
 		bo, ok := in.(*ssa.BinOp)
 		if !ok {
 			return
 		}
-		isTarget := func(v ssa.Value) bool { _, ok := isMethodCall(v, "Target"); return ok }
-		isLit := func(v ssa.Value) bool { _, ok := isMethodCall(v, "String"); return ok }
+		isTarget := func(v ssa.Value) bool { _, ok := isMethodCall(throughCells(v), "Target"); return ok }
+		isLit := func(v ssa.Value) bool { _, ok := isMethodCall(throughCells(v), "String"); return ok }
 		if (isTarget(bo.X) && isLit(bo.Y)) || (isTarget(bo.Y) && isLit(bo.X)) {
 			if bo.Op == token.EQL {
 				okPI = true
@@ -544,7 +574,7 @@ func (w *World) checkNodeTypeTests(P string, f *Facts, r *Roles) {
 		}
 	})
 	asserted := false
-	allInstrs(hp.Fn, func(in ssa.Instruction) {
+	withCallees(hp.Fn.Blocks, "exec", hp.Fn, func(in ssa.Instruction) {
 		if ta, ok := in.(*ssa.TypeAssert); ok {
 			if n, ok := types.Unalias(ta.AssertedType).(*types.Named); ok && n.Obj().Name() == "ProcInst" {
 				asserted = true
@@ -552,4 +582,30 @@ func (w *World) checkNodeTypeTests(P string, f *Facts, r *Roles) {
 		}
 	})
 	w.check(P, "R01.10", "processing-instruction target test", hp.Fn.Pos(), okPI && asserted, detail)
+}
+
+// selectorsApplied: the axis selectors a call applies: its static callee when that is a selector, and every selector
+// handed to the callee as a function value (`applyAxis(context, selectParent)`).
+func selectorsApplied(c *ssa.Call, ef *ExecFacts) []*ssa.Function {
+	var out []*ssa.Function
+	if sc := staticCallee(c); sc != nil {
+		if _, isSel := ef.Selectors[sc]; isSel {
+			out = append(out, sc)
+		}
+	}
+	for _, a := range c.Call.Args {
+		var fv *ssa.Function
+		switch x := stripConv(a).(type) {
+		case *ssa.Function:
+			fv = x
+		case *ssa.MakeClosure:
+			fv, _ = x.Fn.(*ssa.Function)
+		}
+		if fv != nil {
+			if _, isSel := ef.Selectors[fv]; isSel {
+				out = append(out, fv)
+			}
+		}
+	}
+	return out
 }
